@@ -53,6 +53,11 @@ func Spec() *run.Spec {
 			"lone_component_names": 36, "directed_near_packed_layouts": 500, "near_packed_groups": 15,
 			"near_packed_vector_groups_binary": 400, "near_packed_vector_groups_ascii": 200,
 			"huge_whole_values_float_ascii": 1000, "huge_whole_values_double_ascii": 1000, "huge_whole_values_float_binary": 1000, "huge_whole_values_double_binary": 1000,
+			"ascii_vertex_row_widths": 36, "ascii_face_row_widths": 30, "wide_row_populations": 25, "padded_number_forms": 4,
+			"ascii_files_loaded_with_a_vertex_row_over_4096_bytes": 30, "ascii_files_loaded_with_a_vertex_row_over_8192_bytes": 20,
+			"ascii_files_loaded_with_a_vertex_row_over_16384_bytes": 10, "ascii_files_loaded_with_a_vertex_row_over_60000_bytes": 5,
+			"ascii_files_loaded_with_a_face_row_over_4096_bytes": 15, "ascii_files_loaded_with_a_face_row_over_8192_bytes": 10,
+			"ascii_files_loaded_with_a_face_row_over_16384_bytes": 5, "ascii_files_loaded_with_a_face_row_over_60000_bytes": 2,
 			"fault_histories": 300, "failed_reads_reported": 300, "good_ops_after_a_failed_read": 300, "read_fault_positions": 5,
 		},
 		Phases: []run.Phase{
@@ -61,7 +66,13 @@ func Spec() *run.Spec {
 					return 250000
 				}
 				return 8000
-			}, Run: func(c *run.Ctx) run.Result { return runCase(c, genOpts{}) }, Batch: 250, CPUBudgetS: 20},
+			}, Run: func(c *run.Ctx) run.Result {
+				o := genOpts{}
+				if c.Case%50 == 23 { // one file in fifty has wide ascii rows
+					o.Wide = wideTarget(c.Rng, c.Tier, c.Case/50)
+				}
+				return runCase(c, o)
+			}, Batch: 250, CPUBudgetS: 20},
 			{Name: "fault-sequences", Cases: func(t string) int {
 				if t == "thorough" {
 					return 20000
@@ -245,6 +256,40 @@ func runCase(c *run.Ctx, o genOpts) run.Result {
 	for _, n := range m.Lone {
 		res.SetAdd("lone_component_names", n)
 	}
+	maxVRow, maxFRow := 0, 0
+	if m.Format == "ascii" {
+		if ph, err := plyfile.ParseHeader(data); err == nil {
+			pos := ph.BodyOffset
+			for i := 0; i < nv+len(m.Faces) && pos < len(data); i++ {
+				k := bytes.IndexByte(data[pos:], '\n')
+				if k < 0 {
+					k = len(data) - pos
+				}
+				if i < nv {
+					if k > maxVRow {
+						maxVRow = k
+					}
+					if k >= 4000 {
+						res.SetAdd("ascii_vertex_row_widths", rowWidthLabel(k))
+					}
+				} else {
+					if k > maxFRow {
+						maxFRow = k
+					}
+					if k >= 4000 {
+						res.SetAdd("ascii_face_row_widths", rowWidthLabel(k))
+					}
+				}
+				pos += k + 1
+			}
+		}
+	}
+	if m.Wide != nil {
+		res.SetAdd("wide_row_populations", m.Wide.Kind+"/"+m.Wide.Label+"/"+m.Wide.Mode+"/"+map[bool]string{true: "ascii", false: "binary"}[m.Format == "ascii"])
+		for _, f := range m.PadForms {
+			res.SetAdd("padded_number_forms", f)
+		}
+	}
 	if m.Directed != "" {
 		res.Count("directed_near_packed_layouts", 1)
 		res.SetAdd("directed_near_packed_patterns", m.Directed)
@@ -354,6 +399,12 @@ func runCase(c *run.Ctx, o genOpts) run.Result {
 		return res
 	}
 	if err != nil {
+		if m.Format == "ascii" && (maxVRow >= scannerLimit-1 || maxFRow >= scannerLimit-1) && strings.Contains(err.Error(), "token too long") {
+			// only reachable with includeRowsOver64KiB
+			res.Violate("ascii-row-over-64KiB", "ply ascii reader (bufio.Scanner token limit)", input,
+				fmt.Sprintf("the file has a row of %d bytes; ply.ReadMesh: %v", max(maxVRow, maxFRow), err), wit())
+			return res
+		}
 		res.Violate("read-error", site, input, "a specification-conforming file is rejected: "+err.Error(), wit())
 		return res
 	}
@@ -362,6 +413,14 @@ func runCase(c *run.Ctx, o genOpts) run.Result {
 		return res
 	}
 	res.Count("files_loaded", 1)
+	for _, b := range []int{4096, 8192, 16384, 60000} {
+		if maxVRow > b {
+			res.Count(fmt.Sprintf("ascii_files_loaded_with_a_vertex_row_over_%d_bytes", b), 1)
+		}
+		if maxFRow > b {
+			res.Count(fmt.Sprintf("ascii_files_loaded_with_a_face_row_over_%d_bytes", b), 1)
+		}
+	}
 	if nv > 65536 {
 		if m.Format == "ascii" {
 			res.Count("ascii_files_over_65536_vertices_loaded", 1)
